@@ -27,9 +27,9 @@ Not proved here (outside this work package): the round trip through the real tok
 tree-builder models (`C07_roundtrip` of DESIGN 6.7); it is checked on the real code by the `rt=`
 oracle of the `ser` engine.
 
-The switches `Cfg.fixC2 / fixNs / fixVoid` select the code as it is (`Cfg.current`, all false) or
-the proposed fixes; every theorem is stated for an arbitrary `cfg`, the last section instantiates
-`Cfg.current` (FLIP HERE after a fix).
+The switches `Cfg.fixC2 / fixNs / fixVoid` select the pinned snapshot (`Cfg.pinned`, all false) or
+the repaired code (`Cfg.current`, all true since the `fix:` commits); every theorem is stated for an
+arbitrary `cfg`, the last section instantiates `Cfg.current` at full strength (FLIP HERE).
 -/
 namespace H5V.Props.C07
 deriving instance DecidableEq for Except
@@ -386,26 +386,22 @@ example : writeText Cfg.current ⟨true, false⟩ ['<'] (new Cfg.current (.child
 
 /-! ## 6. the code as it is — FLIP HERE
 
-These two theorems are about `Cfg.current`.  While the defects are present they are the negative
-witnesses.  After the fixes are committed in /repo and `Cfg.current` is switched to
-`fixC2 := true` / `fixNs := true, fixVoid := true`, replace them by the commented versions
-(and drop the `_witness_` theorems from `tools/props/C07.py` if desired — they stay true, they
-speak about `cfg` with the flag off). -/
+`Cfg.current` has all three switches on since the `fix:` commits in /repo (D1 423f1bc, D2 b9175dc,
+D3 f7b6360); the `ser` correspondence ties that configuration to the code on every run.  The
+theorems below are the full-strength statements about it.  The pinned snapshot (`Cfg.pinned`, all
+switches off) keeps its negative witnesses, so the history stays visible.  If a fix is reverted and
+`Cfg.current` is switched back, the `rfl` arguments below stop type-checking. -/
 
-theorem C07_current_write_escaped :
-    writeEscaped Cfg.current false (utf8 ['¢']) [] = .ok [0xA2] :=
-  (C07_witness_c2_dropped Cfg.current rfl false).1
-/- after the fix of defect 1:
+/-- **The code as it is**: for every string and both modes the bytes written by `write_escaped`
+are UTF-8 of the character-level escape. -/
 theorem C07_current_write_escaped (attr : Bool) (s : List Char) (out : Bytes) :
     writeEscaped Cfg.current attr (utf8 s) out = .ok (out ++ utf8 (escape attr s)) :=
   C07_escape_bytes_fixed Cfg.current rfl attr s out
--/
 
-theorem C07_current_inner_outer :
-    serialize Cfg.current (.childrenOnly (some svgStyle)) ⟨true, false⟩ witnessNs
-      = .ok [0x61, 0x3C, 0x62] :=
-  (C07_witness_ns_ignored Cfg.current rfl true false).1
-/- after the fixes of defect 2 and finding 3:
+example : writeEscaped Cfg.current false (utf8 ['¢', '\u00A0', '<']) []
+    = .ok ([0xC2, 0xA2] ++ bNbsp ++ bLt) := by decide
+
+/-- **The code as it is**: inner = outer for every element of every tree, all options. -/
 theorem C07_current_inner_outer (o : Opts) (name : QualName) (attrs : List Attr) (ch : List Node) :
     (∀ outer, serialize Cfg.current .includeNode o (.element name attrs ch) = .ok outer →
       ∃ inner, serialize Cfg.current (.childrenOnly (some name)) o (.element name attrs ch) = .ok inner ∧
@@ -414,6 +410,38 @@ theorem C07_current_inner_outer (o : Opts) (name : QualName) (attrs : List Attr)
       serialize Cfg.current .includeNode o (.element name attrs ch)
         = .ok (startTagBytes Cfg.current name attrs ++ inner ++ endTagOf name)) :=
   C07_inner_outer_fixed Cfg.current rfl rfl o name attrs ch
--/
+
+example : serialize Cfg.current (.childrenOnly (some svgStyle)) ⟨true, false⟩ witnessNs
+    = .ok ([0x61] ++ bLt ++ [0x62]) := by decide
+example : serialize Cfg.current (.childrenOnly (some htmlBr)) ⟨true, false⟩ witnessVoid = .ok [] := by
+  decide
+
+/-- **The code as it is**: under `ChildrenOnly(Some(name))` text is raw iff `name` is an
+HTML-namespace raw-text element (∧ scripting for `noscript`) — for every name. -/
+theorem C07_current_scope_raw (o : Opts) (name : QualName) (t : List Char) :
+    writeText Cfg.current o t (new Cfg.current (.childrenOnly (some name))) =
+      .ok ⟨if isRawParent o name then utf8 t else utf8 (escape false t),
+           [scopeInfo Cfg.current (.childrenOnly (some name))]⟩ := by
+  rw [C07_scope_raw_partial Cfg.current o name t (Or.inl rfl),
+      escBytes_utf8 Cfg.current false t (Or.inl rfl)]
+
+/-! ### the pinned snapshot (history) -/
+
+/-- Defect 1 on the pinned snapshot: `¢` was written as the lone byte A2. -/
+theorem C07_pinned_write_escaped :
+    writeEscaped Cfg.pinned false (utf8 ['¢']) [] = .ok [0xA2] :=
+  (C07_witness_c2_dropped Cfg.pinned rfl false).1
+
+/-- Defect 2 on the pinned snapshot: inner serialisation of `<svg:style>a&lt;b` was the raw `a<b`. -/
+theorem C07_pinned_inner_outer :
+    serialize Cfg.pinned (.childrenOnly (some svgStyle)) ⟨true, false⟩ witnessNs
+      = .ok [0x61, 0x3C, 0x62] :=
+  (C07_witness_ns_ignored Cfg.pinned rfl true false).1
+
+/-- Finding 3 on the pinned snapshot: `ChildrenOnly(Some(br))` wrote the child element. -/
+theorem C07_pinned_void_children :
+    serialize Cfg.pinned (.childrenOnly (some htmlBr)) ⟨true, false⟩ witnessVoid
+      = .ok [0x3C, 0x62, 0x3E, 0x3C, 0x2F, 0x62, 0x3E] :=
+  (C07_witness_void_children Cfg.pinned rfl true false).1
 
 end H5V.Props.C07
